@@ -1,467 +1,161 @@
 """C21 - SOCKS5 handshakes are parsed exactly and relay subsequent data.
 
-Everything is decided on the model extracted from ``Socks5Proxy`` (+ ``DestinationKnown.finish_start``) on every run:
-all paths of every state function, for every event the layer accepts, from every reachable abstract state (typestate
-exploration, helper calls inlined, buffer lengths / indices as symbolic linear forms over the bytes of ``self.buf``).
+``Socks5Proxy`` (with everything it calls: helpers, ``DestinationKnown.finish_start``, module constants / tables) is *interpreted* from
+its AST (mitmlint/pyint.py, generators executed eagerly, commands answered by a scripted environment) on a structured domain of
+byte streams x environments x segmentations, and every run is compared - after every delivered segment - with a reference model of
+RFC 1928 / 1929 written down in ``_helpers_C.socks5_reference``.  Nothing of the repository is imported or executed.  The rules
+compare *behaviour* (commands, replies, ``context.server.address``, what the next layer receives, whether the layer has ended, the
+content of the handshake buffer), so the shape of the code - if/match, helper extraction, tables, struct.pack / bytes([..]),
+renamed locals and private methods, logging, assertions, defaulted parameters - is irrelevant.
 
-  R21.1 buffer discipline (=> the outcome cannot depend on the segmentation):
-        a  every DataReceived is appended to ``self.buf`` (``+=``) and then the current state function runs;
-        b  a failed length test (``len(self.buf) < need``) returns immediately, and nothing but tests/reads happened since
-           the state function was entered (re-running it on more data is equivalent);
-        c  every ``self.buf[i]`` and every bounded slice ``self.buf[a:b]`` lies inside a length that was tested before on
-           the same path (no IndexError, no silently truncated field);
-        d  ``self.buf`` is only ever re-assigned to its own suffix ``self.buf[n:]`` with n == the length tested last
-           (exactly the parsed message is consumed);
-        e  after the request the leftover is forwarded to the child exactly once as DataReceived(client, self.buf), after
-           the child's Start, and ``self.buf`` is deleted; nothing is forwarded when it is empty.
-        f  the layer only ever *waits* (a DataReceived transition ends with the layer's own handler still installed)
-           because the state function that is current at the end (``self.state``) was run on the final buffer and found it
-           too short: it was entered after the last consumption / state change and the path ends in its failed length
-           test.  Otherwise bytes that arrived in the same segment as the end of the previous message (greeting + auth +
-           request pipelined) sit unparsed until some later segment arrives - the same bytes split differently work,
-           so the outcome depends on the segmentation (and a client that waits for the reply hangs).
-  R21.2 RFC 1928 / 1929 tables (cells evaluated by binding the relevant bytes):
-        version byte 5 / other; method selection 05 00 (no auth) / 05 02 (proxyauth) / 05 FF.. (not offered) + next state;
-        auth replies 01 00 / 01 01; request prefix 05 01 00 else reply 07; ATYP 1/3/4 message lengths 10 / 7+n / 22 else
-        reply 08; host = inet_ntop(AF_INET, 4 bytes at 4) / inet_ntop(AF_INET6, 16 bytes at 4) / n bytes at 5; port = the
-        last two bytes unpacked with "!H"; success reply 05 00 00 01 0*6; connect failure reply 05 04 00 01 0*6.
-  R21.3 typestate: reachable (state, handler) pairs; a parse error ends in ``done`` after closing the client and nothing
-        follows; ``context.server.address`` is written once, with the parsed (host, port), before the child exists;
-        ``_handle_event`` is rebound to the child only inside ``finish_start``; connect failure => reply 04, close, done;
-        ConnectionClosed closes; no exception escapes.
-NOT decided: byte-level decoding by ``socket.inet_ntop`` / ``struct`` / ``bytes.decode`` (trusted), the event queueing of
-``Layer`` while OpenConnection is pending (C04), the version byte of the RFC 1929 sub-negotiation (not checked by the code,
-not demanded by the property).
+  R21.1 segmentation independence / buffer discipline, for every stream of the domain and every segmentation tried (whole, every
+        single cut, byte by byte, message boundaries, pairs of cuts):
+        a  while the handshake is running the handshake buffer holds exactly the bytes not yet parsed (every segment is appended,
+           exactly the parsed message is consumed);
+        b  no segmentation raises (no read beyond the received bytes);
+        c  the outcome (commands, destination, state, bytes given to the next layer) is the outcome of delivering the stream whole;
+        d  after every segment the layer has done exactly what the bytes received so far demand - nothing early, nothing twice, and
+           bytes that arrived together with the end of the previous message are parsed at once (pipelining);
+        e  the bytes that follow the request reach the next layer exactly once, in order, after its Start event.
+  R21.2 RFC 1928 / 1929 tables on the whole stream: version byte, method selection 05 00 / 05 02 / 05 FF + close, auth replies
+        01 00 / 01 01 + close with the (user, password) given to the hook, request prefix 05 01 00 else reply 07, ATYP 1 / 3 / 4 message
+        lengths 10 / 7+n / 22 else reply 08, host = inet_ntop of the 4 / 16 bytes at 4 or the n bytes at 5, port = last two bytes big
+        endian, OpenConnection for that address (eager), success reply 05 00 00 01 0*6, connect failure reply 05 04 00 01 0*6 + close.
+  R21.3 typestate: Start has no effect; an error closes the client and *ends* the layer (whatever arrives later has no effect);
+        ``context.server.address`` is written once; the next layer is started exactly once, after the destination is known and (eager)
+        the connection is open, and gets data only after its Start; connect failure => no next layer; ConnectionClosed during the
+        handshake closes; no exception escapes.
+NOT decided: streams outside the domain (the domain covers every branch of the reference and the boundary lengths 0 / 1 / 255),
+byte-level decoding by ``socket.inet_ntop`` / ``struct`` / ``bytes.decode`` (trusted library code, executed on the domain's bytes),
+the event queueing of ``Layer`` while OpenConnection is pending (C04), the version byte of the RFC 1929 sub-negotiation (not
+checked by the code, not demanded by the property).
 """
 
 from __future__ import annotations
 
-from ..core import AnalysisError
-from ..paths import C
-from ..paths import is_const
-from ..paths import R
-from ..paths import State
 from ..selftest import Mutant
-from ._helpers_C import as_lin
-from ._helpers_C import explore_socks5
-from ._helpers_C import is_obj
-from ._helpers_C import LIN
-from ._helpers_C import lin_add
-from ._helpers_C import lin_ge
-from ._helpers_C import lin_text
+from ._helpers_C import cut
+from ._helpers_C import merge_sends
 from ._helpers_C import MODES
-from ._helpers_C import RefiningEngine
-from ._helpers_C import Socks5Spec
-from ._helpers_C import socks5_init_env
+from ._helpers_C import socks5_boundaries
+from ._helpers_C import socks5_domain
+from ._helpers_C import socks5_judge
+from ._helpers_C import socks5_reference
+from ._helpers_C import socks5_segmentations
+from ._helpers_C import Socks5World
+from ._helpers_C import CHILD_KINDS
+from ._helpers_C import WIRE_KINDS
 
 PROP = "C21"
 REG = {
     "strength": "partial",
-    "technique": "typestate exploration of the model extracted from Socks5Proxy's AST (all paths, helpers inlined, symbolic linear "
-    "arithmetic over buffer bytes) + RFC 1928/1929 decision tables evaluated by binding handshake bytes",
-    "claim": "on every path of the extracted Socks5Proxy model: data is appended then parsed; insufficient data returns without "
-    "effect; every buffer read lies within a tested length; exactly the tested length is consumed; leftover bytes go to the child "
-    "once; replies, lengths, address/port slices and state changes follow RFC 1928/1929; errors close and end the layer.",
-    "note": "The model over-approximates (data-dependent tests fork both ways); inet_ntop / struct.unpack / decode are trusted; Layer's "
-    "pausing while OpenConnection is pending belongs to C04.",
+    "technique": "abstract interpretation of Socks5Proxy's AST (all helpers / tables followed, generators run eagerly against a scripted "
+    "environment) on a structured domain of handshake byte streams x environments x segmentations, compared after every segment with "
+    "a reference model of RFC 1928/1929",
+    "claim": "for every stream of the domain (all address types, methods, credentials, malformed versions / commands / address types, "
+    "boundary lengths, pipelined payload) and every segmentation tried the interpreted layer sends exactly the RFC replies, sets exactly "
+    "the requested destination, keeps exactly the unparsed bytes buffered, relays the bytes after the request once and in order, ends "
+    "after an error, and behaves the same however the stream is cut.",
+    "note": "Bounded: the domain and the segmentations are listed in the evidence (all single cuts, byte-by-byte, boundaries, pairs). "
+    "inet_ntop / struct / decode are trusted; Layer's pausing while OpenConnection is pending belongs to C04.",
 }
 
-OWN = R("self._handle_event")
-DONE = R("self.done")
-CHILD = R("self.child_layer.handle_event")
-ZEROS = b"\x00\x01" + b"\x00" * 6
-EFFECTS = ("send", "close", "open", "hook", "buf:=", "buf+", "bufdel", "set", "addr:=", "child:=", "child_start", "child_data", "log")
+SUB = {
+    "buffer": ("R21.1", "a: the handshake buffer is not exactly the bytes that are not parsed yet"),
+    "seg-exception": ("R21.1", "b: a segmentation of the stream raises"),
+    "seg-outcome": ("R21.1", "c: the outcome depends on how the stream is segmented"),
+    "seg-step": ("R21.1", "d: after a segment the layer has not done exactly what the received bytes demand"),
+    "child": ("R21.1", "e: the bytes after the request are not relayed to the next layer exactly once, in order, after its Start"),
+    "wire": ("R21.2", "replies / hook arguments / connection commands differ from RFC 1928/1929"),
+    "address": ("R21.2", "context.server.address is not the requested destination"),
+    "state": ("R21.3", "the layer is in the wrong state (parsing / ended / relaying) for what it received"),
+    "order": ("R21.3", "destination, server connection and next layer are not set up once and in order"),
+    "start": ("R21.3", "the Start event has an effect"),
+    "close": ("R21.3", "ConnectionClosed during the handshake does not close the connection"),
+    "exception": ("R21.3", "an exception escapes the layer"),
+}
+WHY = {
+    "R21.1": "the outcome of the handshake depends on how the client's bytes are segmented / bytes are lost, read too early or parsed twice",
+    "R21.2": "mitmproxy answers with a malformed or wrong reply, or connects to a destination other than the requested one",
+    "R21.3": "the SOCKS5 layer reaches a state the protocol does not allow (data after an error, double connect, next layer without destination)",
+}
 
 
-def fmt(tr):
-    return [str(e) for e in tr]
-
-
-def r21_1(ctx, trans, where):
-    bad = {}
-    n_wait = n_consume = n_reads = n_left = n_quiescent = 0
-    for src, kind, tr, dst, exc in trans:
-        eff = [e for e in tr if e[0] != "c"]
-        # a: append then dispatch
-        if kind == "DataReceived":
-            if not (len(eff) >= 2 and eff[0] == ("buf+", "event.data") and eff[1][0] == "enter" and eff[1][1] == src["self.state"][1]):
-                bad.setdefault("a: DataReceived is not appended to self.buf before the current state function runs", tr)
-        bounds = []  # lower bounds on len(self.buf) known on this path (current epoch)
-        last_need = None
-        seg_clean = True  # nothing but tests/reads since the state function was entered
-        for i, e in enumerate(tr):
-            if e[0] == "enter" and e[1].startswith("self.state_"):
-                seg_clean = True
-            elif e[0] == "c":
-                for r in e[4]:
-                    n_reads += 1
-                    if isinstance(r, tuple) and r and r[0] == "upto" and not outcome_matters(trans, src, kind, tr, i, dst):
-                        continue  # the test cannot change what the layer does (it only selects a log text)
-                    check_read(r, bounds, bad, tr)
-                if e[1] == "need":
-                    if e[3]:  # insufficient data
-                        n_wait += 1
-                        if i != len(tr) - 1:
-                            bad.setdefault("b: processing continues after a failed length test", tr)
-                        if not seg_clean:
-                            bad.setdefault("b: a state function has an effect before it finds the buffer too short (re-entry would repeat it)", tr)
-                    else:
-                        bounds.append(e[2])
-                        last_need = e[2]
-            elif e[0] == "read":
-                n_reads += 1
-                check_read(e[1], bounds, bad, tr)
-            elif e[0] == "buf:=":
-                v = e[1]
-                if not (is_obj(v, "bufslice") and v[4] == C(None)):
-                    bad.setdefault(f"d: self.buf is re-assigned to something that is not its own suffix: {v}", tr)
-                elif last_need is None or v[3] != last_need:
-                    bad.setdefault(f"d: {lin_text(v[3])} bytes are consumed but the length tested last was {lin_text(last_need) if last_need else 'none'}", tr)
-                else:
-                    n_consume += 1
-                bounds, last_need = [], None
-                seg_clean = False
-            elif e[0] in EFFECTS and e[0] not in ("buf+", "log"):
-                seg_clean = False
-            elif e[0] == "buf+" and i > 3:
-                bad.setdefault("a: self.buf is appended to in the middle of a state function", tr)
-        # f: waiting is justified only by a failed length test of the state that is current at the end
-        if kind == "DataReceived" and exc is None and dst.get("self._handle_event") == OWN:
-            n_quiescent += 1
-            cur = dst["self.state"][1] if dst["self.state"][0] == "r" else str(dst["self.state"])
-            i_mod = max((i for i, e in enumerate(tr) if e[0] in ("buf:=", "buf+", "bufdel") or (e[0] == "set" and e[1] == "self.state")), default=-1)
-            i_run = max((i for i, e in enumerate(tr) if e[0] == "enter" and e[1] == cur), default=-1)
-            last = tr[-1] if tr else None
-            if i_run < i_mod:
-                what = {"buf:=": "consuming a message", "set": "switching to " + cur.replace("self.", ""), "buf+": "appending data", "bufdel": "deleting the buffer"}[tr[i_mod][0]]
-                bad.setdefault(f"f: after {what} the layer waits for more data without running {cur.replace('self.', '')} on the bytes already buffered "
-                               "(pipelined bytes are parsed only when a later segment arrives)", tr)
-            elif not (last is not None and last[0] == "c" and last[1] == "need" and last[3]):
-                bad.setdefault(f"f: the layer waits for more data although {cur.replace('self.', '')} did not find the buffer too short", tr)
-        # e: leftover
-        if dst.get("self._handle_event") == CHILD and src.get("self._handle_event") == OWN:
-            i_set = next(i for i, e in enumerate(tr) if e[0] == "set" and e[2] == CHILD[1])
-            rest = tr[i_set:]
-            cd = [e for e in rest if e[0] == "child_data"]
-            nonempty = [e[3] for e in rest if e[0] == "c" and e[1] == "buf"]
-            if any(e[0] == "child_data" for e in tr[:i_set]):
-                bad.setdefault("e: data is handed to the child before it became the handler", tr)
-            if nonempty == [True]:
-                n_left += 1
-                names = [e[0] for e in rest if e[0] in ("child_start", "child_data", "bufdel", "buf:=")]
-                if cd != [("child_data", ("self.context.client", "self.buf"))]:
-                    bad.setdefault(f"e: leftover bytes are not forwarded exactly once as DataReceived(client, self.buf): {cd}", tr)
-                elif names != ["child_start", "child_data", "bufdel"]:
-                    bad.setdefault(f"e: order after the request is {names}, expected child Start, leftover data, del self.buf", tr)
-            elif nonempty == [False]:
-                if cd:
-                    bad.setdefault("e: an empty leftover is forwarded to the child", tr)
-            else:
-                bad.setdefault("e: the leftover bytes are not tested / forwarded after the request (bytes sent with the request are lost)", tr)
-    if not bad:
-        ctx.require(n_wait >= 6 and n_consume >= 3 and n_reads >= 8 and n_left >= 1 and n_quiescent >= 6,
-                    f"SOCKS5 model lost its buffer operations (waits={n_wait}, consumes={n_consume}, reads={n_reads}, leftovers={n_left}, waiting transitions={n_quiescent})")
-    for msg, tr in sorted(bad.items()):
-        ctx.fail("R21.1", where, msg, "the outcome of the handshake depends on how the client's bytes are segmented / bytes are lost or parsed twice", trace=fmt(tr))
-    if not bad:
-        ctx.ok("R21.1", f"append-then-parse on all DataReceived paths; {n_wait} short-buffer returns without effect; {n_reads} reads inside tested lengths; "
-               f"{n_consume} consumptions of exactly the tested length; {n_left} leftover hand-overs; all {n_quiescent} waiting transitions end in a failed "
-               "length test of the current state on the final buffer")
-
-
-def project(tr, dst):
-    return tuple(e for e in tr if e[0] in EFFECTS and e[0] != "log"), tuple(sorted(dst.items()))
-
-
-def outcome_matters(trans, src, kind, tr, i, dst) -> bool:
-    """Does the outcome of the test at tr[i] change any effect?  Looks for the sibling path (same source state, same
-    event, same prefix, opposite outcome) and compares the projected remainders."""
-    e = tr[i]
-    for src2, kind2, tr2, dst2, exc2 in trans:
-        if kind2 != kind or src2 != src or len(tr2) <= i or tr2[:i] != tr[:i]:
-            continue
-        f = tr2[i]
-        if f[0] == "c" and f[:3] == e[:3] and f[4] == e[4] and f[3] != e[3]:
-            if project(tr2[i:], dst2) != project(tr[i:], dst):
-                return True
-    # no sibling with a different behaviour: both outcomes behave alike (or the test is decided)
-    return not any(
-        kind2 == kind and src2 == src and len(tr2) > i and tr2[:i] == tr[:i] and tr2[i][0] == "c" and tr2[i][:3] == e[:3] and tr2[i][3] != e[3]
-        for src2, kind2, tr2, dst2, exc2 in trans
-    )
-
-
-def check_read(r, bounds, bad, tr):
-    if isinstance(r, tuple) and r and r[0] == "upto":
-        if not any(lin_ge(b, r[1]) for b in bounds) and not (is_const(r[1]) and r[1][1] <= 0):
-            # a slice used only in a comparison against a shorter prefix is harmless when a tested length covers it
-            bad.setdefault(f"c: slice self.buf[..:{lin_text(r[1])}] is taken before a length >= {lin_text(r[1])} was tested", tr)
-        return
-    need = lin_add(r, C(1))
-    if not any(lin_ge(b, need) for b in bounds):
-        bad.setdefault(f"c: self.buf[{lin_text(r)}] is read before a length > {lin_text(r)} was tested", tr)
-
-
-def run_state(spec, fn, env):
-    eng = RefiningEngine(spec)
-    out = []
-    for fs in eng.finals(fn, State((), dict(env))):
-        fenv = {k: v for k, v in fs.env if not (k[:1].isdigit() and ":" in k) and not k.startswith("$")}
-        exc = fs.get("$exc")
-        out.append((fs.trace, fenv, exc[1] if is_const(exc) else None))
-    return out
-
-
-def sends(tr):
-    return [e[2] for e in tr if e[0] == "send" and e[1] == "client"]
-
-
-def errored(tr, env):
-    return env.get("self._handle_event") == DONE and any(e[0] == "close" and e[1] == "client" for e in tr)
-
-
-def r21_2(ctx, spec, where):
-    m = ctx.model
-    greet = ctx.func(MODES, "Socks5Proxy.state_greet")
-    auth = ctx.func(MODES, "Socks5Proxy.state_auth")
-    conn = ctx.func(MODES, "Socks5Proxy.state_connect")
-    base = socks5_init_env()
-    bad = []
-    cells = 0
-
-    def cell(ok, what, why):
-        nonlocal cells
-        cells += 1
-        ctx.cells += 1
-        if not ok:
-            bad.append(what)
-            ctx.fail("R21.2", where, what, why)
-
-    def full(paths):
-        """paths that got past every length test"""
-        return [(tr, env, exc) for tr, env, exc in paths if not any(e[0] == "c" and e[1] == "need" and e[3] for e in tr)]
-
-    # --- version byte
-    for v in (5, 4, 0x47):
-        ps = full(run_state(spec, greet, dict(base, **{"$byte0_0": C(v), "self.state": R("self.state_greet")})))
-        ctx.require(ps, "state_greet: no complete path")
-        if v == 5:
-            cell(any(any(e[0] == "buf:=" for e in tr) for tr, env, exc in ps), "version 5 is not accepted by state_greet", "a valid greeting is rejected")
-        else:
-            cell(all(errored(tr, env) and not any(e[0] in ("buf:=", "send") or (e[0] == "set" and e[1] == "self.state") for e in tr) for tr, env, exc in ps),
-                 f"greeting with version byte {v:#x} is not rejected (close + done)", "a non-SOCKS5 greeting is processed")
-    # --- method selection
-    for pa, method, nxt in ((False, 0x00, "self.state_connect"), (True, 0x02, "self.state_auth")):
-        ps = full(run_state(spec, greet, dict(base, **{"$byte0_0": C(5), "$proxyauth": C(pa)})))
-        ok_paths = [(tr, env) for tr, env, exc in ps if any(e[0] == "buf:=" for e in tr)]  # greeting consumed
-        rej = [(tr, env) for tr, env, exc in ps if errored(tr, env) and not any(e[0] == "buf:=" for e in tr)]
-        # only look at the greet segment: up to the consumption of the greeting
-        def greet_part(tr):
-            i = next((i for i, e in enumerate(tr) if e[0] == "buf:="), len(tr))
-            return tr[: i + 1]
-        cell(bool(ok_paths) and all(sends(greet_part(tr)) == [C(bytes([5, method]))] for tr, env in ok_paths),
-             f"proxyauth={pa}: method selection reply is not 05 {method:02x}", "the client is told a different authentication method than the one enforced")
-        cell(all(any(e[0] == "set" and e[1] == "self.state" and e[2] == nxt for e in greet_part(tr)) and
-                 not any(e[0] == "set" and e[1] == "self.state" and e[2] != nxt for e in greet_part(tr)) for tr, env in ok_paths),
-             f"proxyauth={pa}: next state after the greeting is not {nxt}", "the handshake continues in the wrong state")
-        cell(bool(rej) and all(s[0:1] and is_const(s[0]) and s[0][1][:2] == b"\x05\xff" for s in (sends(tr) for tr, env in rej)),
-             f"proxyauth={pa}: a greeting without the required method is not answered with 05 FF", "RFC 1928: NO ACCEPTABLE METHODS must be signalled before closing")
-    # --- authentication replies
-    for valid, reply in ((True, b"\x01\x00"), (False, b"\x01\x01")):
-        ps = full(run_state(spec, auth, dict(base, **{"$valid": C(valid), "self.state": R("self.state_auth")})))
-        ctx.require(ps, "state_auth: no complete path")
-        def auth_part(tr):
-            i = next((i for i, e in enumerate(tr) if e[0] == "buf:="), len(tr))
-            return tr[: i + 1]
-        cell(all(sends(auth_part(tr))[:1] == [C(reply)] for tr, env, exc in ps), f"authentication {'success' if valid else 'failure'} is not answered with {reply.hex(' ')}",
-             "RFC 1929 status reply is wrong")
-        if not valid:
-            cell(all(errored(tr, env) and not any(e[0] == "buf:=" for e in tr) for tr, env, exc in ps), "failed authentication does not close the connection and end the layer", "RFC 1929: the server MUST close on failure")
-    # --- request prefix
-    for prefix, okp in (((5, 1, 0), True), ((5, 2, 0), False), ((5, 3, 0), False), ((4, 1, 0), False), ((5, 1, 1), False)):
-        env = dict(base, **{f"$byte0_{i}": C(b) for i, b in enumerate(prefix)}, **{"self.state": R("self.state_connect"), "$byte0_3": C(1)})
-        ps = full(run_state(spec, conn, env))
-        ctx.require(ps, "state_connect: no complete path")
-        if okp:
-            cell(all(any(e[0] == "addr:=" for e in tr) for tr, env2, exc in ps), "a CONNECT request (05 01 00) is not processed", "valid requests are rejected")
-        else:
-            cell(all(errored(tr, env2) and sends(tr) == [C(b"\x05\x07" + ZEROS)] and not any(e[0] == "addr:=" for e in tr) for tr, env2, exc in ps),
-                 f"request prefix {bytes(prefix).hex(' ')} is not answered with reply 07 (command not supported) and closed", "a non-CONNECT / malformed request is processed or answered with the wrong code")
-    # --- address types
-    for atyp in (1, 3, 4, 2, 0):
-        env = dict(base, **{"$byte0_0": C(5), "$byte0_1": C(1), "$byte0_2": C(0), "$byte0_3": C(atyp), "self.state": R("self.state_connect")})
-        ps = full(run_state(spec, conn, env))
-        ctx.require(ps, "state_connect: no complete path")
-        if atyp in (2, 0):
-            cell(all(errored(tr, env2) and sends(tr) == [C(b"\x05\x08" + ZEROS)] and not any(e[0] == "addr:=" for e in tr) for tr, env2, exc in ps),
-                 f"address type {atyp} is not answered with reply 08 (address type not supported) and closed", "an unknown address type is processed or answered with the wrong code")
-            continue
-        want_len = {1: C(10), 4: C(22), 3: LIN(7, {"buf0[4]": 1})}[atyp]
-        for tr, env2, exc in ps:
-            needs = [e[2] for e in tr if e[0] == "c" and e[1] == "need" and not e[3]]
-            cell(needs[-1:] == [want_len], f"ATYP {atyp}: request length is {lin_text(needs[-1]) if needs else '?'}, expected {lin_text(want_len)}",
-                 "the request is cut at the wrong place: destination misparsed, following bytes shifted")
-            addr = [e[1] for e in tr if e[0] == "addr:="]
-            ok, why = check_addr(atyp, addr, want_len)
-            cell(ok, f"ATYP {atyp}: {why}", "mitmproxy connects to a destination other than the requested one")
-    # --- final replies
-    env = dict(base, **{"$byte0_0": C(5), "$byte0_1": C(1), "$byte0_2": C(0), "$byte0_3": C(1), "self.state": R("self.state_connect")})
-    ps = full(run_state(spec, conn, env))
-    succ = [(tr, e2) for tr, e2, exc in ps if e2.get("self._handle_event") == CHILD]
-    fail = [(tr, e2) for tr, e2, exc in ps if e2.get("self._handle_event") == DONE]
-    cell(bool(succ) and all(sends(tr) == [C(b"\x05\x00" + ZEROS)] for tr, e2 in succ), "success reply is not 05 00 00 01 00 00 00 00 00 00", "RFC 1928 reply malformed")
-    cell(bool(fail) and all(sends(tr) == [C(b"\x05\x04" + ZEROS)] and [e for e in tr if e[0] in ("send", "close")][-1] == ("close", "client") for tr, e2 in fail),
-         "connect failure is not answered with 05 04 00 01 00.. followed by closing the client", "RFC 1928: host unreachable must be reported, then the connection closed")
-    if not bad:
-        ctx.ok("R21.2", f"{cells} RFC 1928/1929 table cells (version, methods, auth replies, request prefix, ATYP lengths, address/port slices, replies) agree")
-
-
-def check_addr(atyp, addr, msg_len):
-    if len(addr) != 1:
-        return False, f"server.address written {len(addr)} times on a complete request path"
-    v = addr[0]
-    if not (is_obj(v, "tuple") and len(v) == 4):
-        return False, f"server.address is not a (host, port) pair: {v}"
-    host, port = v[2], v[3]
-
-    def span(sub):
-        """(start, end) byte offsets inside the request for msg[lo:hi] with msg = self.buf[:msg_len]"""
-        if not (is_obj(sub, "subslice") and is_obj(sub[2], "bufslice") and sub[2][3] == C(0) and sub[2][4] == msg_len):
-            return None
-        lo, hi = sub[3], sub[4]
-        def off(x, default):
-            if x == C(None):
-                return default
-            if is_const(x) and isinstance(x[1], int):
-                return lin_add(msg_len, x) if x[1] < 0 else x
-            return None
-        return off(lo, C(0)), off(hi, msg_len)
-
-    # port: last two bytes, network order
-    if not (is_obj(port, "unpacked") and port[2] == C("!H")):
-        return False, f"port is not struct.unpack('!H', ...)[0]: {port}"
-    sp = span(port[3])
-    if sp is None or sp[0] != lin_add(msg_len, C(-2)) or sp[1] != msg_len:
-        return False, "port is not read from the last two bytes of the request"
-    if atyp == 3:
-        if not (is_obj(host, "decoded")):
-            return False, f"domain name is not decoded from the request bytes: {host}"
-        sp = span(host[2])
-        if sp is None or sp[0] != C(5) or lin_add(sp[1], sp[0], -1) != LIN(0, {"buf0[4]": 1}):
-            return False, "domain name is not the n bytes following the length byte at offset 4"
-        return True, ""
-    fam, size = {1: ("AF_INET", 4), 4: ("AF_INET6", 16)}[atyp]
-    if not (is_obj(host, "inet_ntop") and host[2] == fam):
-        return False, f"host is not socket.inet_ntop({fam}, ...): {host}"
-    sp = span(host[3])
-    if sp is None or sp[0] != C(4) or lin_add(sp[1], sp[0], -1) != C(size):
-        return False, f"address is not the {size} bytes at offset 4"
-    return True, ""
-
-
-def r21_3(ctx, states, trans, where):
-    bad = {}
-    allowed = {
-        ("self.state_greet", OWN), ("self.state_auth", OWN), ("self.state_connect", OWN),
-        ("self.state_greet", DONE), ("self.state_auth", DONE), ("self.state_connect", DONE), ("self.state_connect", CHILD),
-    }
-    for s in states:
-        pair = (s["self.state"][1] if s["self.state"][0] == "r" else str(s["self.state"]), s["self._handle_event"])
-        if pair not in allowed:
-            bad.setdefault(f"unexpected abstract state {pair[0]} / handler {pair[1][1] if isinstance(pair[1], tuple) else pair[1]}", ())
-    n_err = n_ok = n_fail = 0
-    for src, kind, tr, dst, exc in trans:
-        if exc is not None:
-            bad.setdefault(f"{exc} escapes the layer on {kind}", tr)
-            continue
-        if kind == "ConnectionClosed":
-            if not any(e[0] == "close" for e in tr):
-                bad.setdefault("ConnectionClosed does not close the connection", tr)
-            continue
-        if kind == "Start":
-            if [e for e in tr if e[0] != "c"]:
-                bad.setdefault("Start has an effect before any byte was received", tr)
-            continue
-        sets = [(i, e) for i, e in enumerate(tr) if e[0] == "set" and e[1] == "self._handle_event"]
-        if len(sets) > 1:
-            bad.setdefault("the handler is rebound more than once in one transition", tr)
-        addr = [i for i, e in enumerate(tr) if e[0] == "addr:="]
-        if len(addr) > 1:
-            bad.setdefault("context.server.address is written more than once", tr)
-        if addr and dst.get("self._handle_event") == OWN:
-            bad.setdefault("context.server.address is written but the layer keeps parsing (it could be written again)", tr)
-        for i, e in sets:
-            if e[2] == DONE[1]:
-                after = [x for x in tr[i + 1 :] if x[0] in EFFECTS]
-                via_err = any(x == ("enter", "self.socks_err") for x in tr[:i])
-                if via_err:
-                    n_err += 1
-                    if after:
-                        bad.setdefault(f"after a protocol error the layer still does {after[0][0]}", tr)
-                    if not any(x[0] == "close" and x[1] == "client" for x in tr[:i]):
-                        bad.setdefault("a protocol error does not close the client connection", tr)
-                else:
-                    n_fail += 1
-                    if not any(x == ("enter", "self.finish_start") for x in tr[:i]):
-                        bad.setdefault("the layer ends (`done`) outside socks_err / finish_start", tr)
-                    if any(x[0] in ("child_start", "child_data") for x in tr):
-                        bad.setdefault("the child layer is started although the connection attempt failed", tr)
-                    rest = [x for x in tr[i + 1 :] if x[0] in ("send", "close")]
-                    if not (len(rest) == 2 and rest[0][0] == "send" and rest[0][1] == "client" and rest[1] == ("close", "client")):
-                        bad.setdefault("connect failure is not followed by exactly one reply and closing the client", tr)
-            elif e[2] == CHILD[1]:
-                n_ok += 1
-                pre = tr[:i]
-                if not any(x == ("enter", "self.finish_start") for x in pre):
-                    bad.setdefault("_handle_event is rebound to the child outside finish_start", tr)
-                if not addr or addr[0] > i or not any(x[0] == "child:=" for x in pre):
-                    bad.setdefault("the child becomes the handler before server.address / child_layer are set", tr)
-                if any(x[0] == "child_start" for x in pre) or [x[0] for x in tr[i:] if x[0] == "child_start"] != ["child_start"]:
-                    bad.setdefault("the child layer is not started exactly once, after it became the handler", tr)
-            else:
-                bad.setdefault(f"_handle_event is rebound to {e[2]}", tr)
-        if dst.get("self._handle_event") == DONE and not sets and src.get("self._handle_event") == OWN:
-            bad.setdefault("handler changed without a recorded rebinding", tr)
-        if any(x == ("enter", "self.socks_err") for x in tr) and dst.get("self._handle_event") != DONE:
-            bad.setdefault("socks_err does not end the layer (handler is not `done` afterwards)", tr)
-    if not bad:
-        ctx.require(n_err >= 5 and n_ok >= 3 and n_fail >= 3, f"SOCKS5 model lost its terminal transitions (errors={n_err}, ok={n_ok}, connect failures={n_fail})")
-    for msg, tr in sorted(bad.items()):
-        ctx.fail("R21.3", where, msg, "the SOCKS5 layer reaches a state the protocol does not allow (double connect, data after error, child without destination)", trace=fmt(tr))
-    if not bad:
-        ctx.ok("R21.3", f"{len(states)} abstract states, {len(trans)} transitions: {n_err} protocol errors end in close+done, {n_ok} successes rebind to the child inside "
-               f"finish_start after address+child are set, {n_fail} connect failures reply+close+done; address written once; no exception escapes")
+def outcome(steps, final):
+    trace = [e for s in steps for e in s.trace]
+    last = steps[-1]
+    return (tuple(merge_sends([e for e in trace if e[0] in WIRE_KINDS])), tuple(merge_sends([e for e in trace if e[0] in CHILD_KINDS])), final, last.address, last.exc)
 
 
 def check(ctx):
-    ctx.rule("R21.1", "buffer discipline: append-then-parse, short buffer => return without effect, reads within tested lengths, consume exactly the tested length, leftover forwarded once")
-    ctx.rule("R21.2", "RFC 1928/1929 tables: version, method selection, auth replies, request prefix, ATYP lengths, address/port slices, reply codes")
-    ctx.rule("R21.3", "typestate: reachable states, errors close and end the layer, address written once, child handler only via finish_start, connect failure handling")
-    ctx.trust("socket.inet_ntop, struct.unpack('!H'), bytes.decode; Layer pauses event delivery while OpenConnection is pending")
-    spec = Socks5Spec(ctx.model)
-    entry = ctx.func(MODES, "Socks5Proxy._handle_event")
-    for n in ("state_greet", "state_auth", "state_connect", "socks_err"):
-        ctx.func(MODES, f"Socks5Proxy.{n}")
-    ctx.func(MODES, "DestinationKnown.finish_start")
-    where = (MODES, "Socks5Proxy", entry)
-    init = ctx.model.cls(MODES, "Socks5Proxy")
-    import ast as _ast
-
-    st0 = [s for s in init.body if isinstance(s, (_ast.Assign, _ast.AnnAssign)) and getattr(s.targets[0] if isinstance(s, _ast.Assign) else s.target, "id", None) == "state"]
-    ctx.require(len(st0) == 1 and getattr(st0[0].value, "id", None) == "state_greet", "Socks5Proxy.state no longer starts as state_greet")
-    b0 = [s for s in init.body if isinstance(s, (_ast.Assign, _ast.AnnAssign)) and getattr(s.targets[0] if isinstance(s, _ast.Assign) else s.target, "id", None) == "buf"]
-    ctx.require(len(b0) == 1 and isinstance(b0[0].value, _ast.Constant) and b0[0].value.value == b"", "Socks5Proxy.buf no longer starts empty")
-    states, trans, eng = explore_socks5(spec, entry, socks5_init_env())
-    ctx.paths += len(trans)
-    ctx.note(f"explored {len(states)} abstract states, {len(trans)} transitions; inlined {sorted(eng.inlined)}; data-dependent tests fork both ways")
-    ctx.assume("environment: Start, then DataReceived / ConnectionClosed in any order while the layer's own handler is installed; "
-               "OpenConnection completes with an error string or None")
-    for t in trans[:2]:
-        ctx.sample({"event": t[1], "from": t[0]["self.state"][1], "trace": fmt(t[2])[:12]})
-    ctx.require(len(trans) >= 100, f"SOCKS5 exploration collapsed to {len(trans)} transitions")
-    r21_1(ctx, trans, where)
-    r21_2(ctx, spec, where)
-    r21_3(ctx, states, trans, where)
+    ctx.rule("R21.1", "segmentation independence: buffer = unparsed bytes, no read beyond the data, same outcome for every segmentation, nothing early / twice, leftover relayed once")
+    ctx.rule("R21.2", "RFC 1928/1929 tables: version, method selection, auth replies, request prefix, ATYP lengths, address / port, reply codes")
+    ctx.rule("R21.3", "typestate: errors close and end the layer, address written once, next layer started once after the destination is known, connect failure, no exception")
+    ctx.trust("socket.inet_ntop, struct, bytes.decode (library code run on the domain's bytes); Layer pauses event delivery while OpenConnection is pending")
+    thorough = ctx.tier == "thorough"
+    ctx.func(MODES, "Socks5Proxy._handle_event")
+    world = Socks5World(ctx.model)
+    where = (MODES, "Socks5Proxy", ctx.model.cls(MODES, "Socks5Proxy"))
+    bad: dict = {}
+    n_runs = n_child = n_done = n_wait = n_cells = 0
+    cases = socks5_domain(thorough)
+    for name, stream, cfg in cases:
+        ref = socks5_reference(stream, cfg)
+        ended = ref["state"] == "done"
+        steps, final = world.run([stream], cfg, expect_done=ended)
+        diffs = socks5_judge(steps, final, stream, (), cfg)
+        whole = outcome(steps, final)
+        n_runs += 1
+        # ConnectionClosed at the end of the stream and in the middle of every message
+        for i in sorted({len(stream)} | {b - 1 for b in socks5_boundaries(stream, cfg) if b > 1}):
+            csteps, cfinal = world.run([stream[:i]], cfg, close=True)
+            n_runs += 1
+            diffs += [d for d in socks5_judge(csteps, cfinal, stream[:i], (), cfg) if d[0] in ("close", "exception") and d not in diffs]
+        n_cells += 1
+        n_child += ref["state"] == "child"
+        n_done += ref["state"] == "done"
+        whole_msgs = {(k, m) for k, at, m in diffs}
+        for k, at, m in diffs:
+            bad.setdefault(k, f"{name} [{cfg!r}], stream {stream.hex(' ')} delivered whole: {m}")
+        if len(ctx.samples) < 4 and not diffs:
+            ctx.sample({"case": name, "environment": repr(cfg), "stream": stream.hex(" "), "commands": [str(e) for e in whole[0]], "next layer": [str(e) for e in whole[1]], "state": ref["state"]})
+        for cuts in socks5_segmentations(stream, cfg, thorough, budget=150 if thorough else 10):
+            if not cuts:
+                continue
+            steps, final = world.run(cut(stream, cuts), cfg, expect_done=ended)
+            n_runs += 1
+            n_wait += sum(1 for s in steps[1:-1] if s.handler == "own")
+            tag = f"{name} [{cfg!r}], stream {stream.hex(' ')} cut at {list(cuts) if len(cuts) < 8 else 'every byte'}"
+            sd = socks5_judge(steps, final, stream, cuts, cfg)
+            for k, at, m in sd:
+                if (k, m) in whole_msgs:
+                    continue  # the same defect as in the whole delivery: reported there
+                kk = {"buffer": "buffer", "child": "child", "exception": "seg-exception"}.get(k, "seg-step")
+                bad.setdefault(kk, f"{tag}: after {at if at is not None else len(stream)} bytes: {m}")
+            got = outcome(steps, final)
+            if got != whole and not (got[4] and any(k == "exception" for k, _, _ in sd)):
+                what = next((lbl for lbl, a, b in zip(("commands", "next layer", "state", "destination", "exception"), got, whole) if a != b), "outcome")
+                i = ("commands", "next layer", "state", "destination", "exception").index(what)
+                bad.setdefault("seg-outcome", f"{tag}: {what} {got[i]!r}, but {whole[i]!r} when the stream is delivered whole")
+    ctx.cells += n_cells
+    ctx.paths += n_runs
+    ctx.functions.update(f"{rel}::{q}" for rel, q in world.it.seen_funcs if rel == MODES)
+    ctx.note(f"interpreted {n_runs} runs of Socks5Proxy over {len(cases)} streams ({world.it.calls} interpreted calls); buffer attribute: {world.buf_attr or world._run_buf_attr or 'not identified (R21.1a not evaluated, the behavioural sub-rules are)'}")
+    ctx.bounds.append(f"C21: {len(cases)} handshake streams x environments; segmentations: whole, every single cut, byte by byte, message boundaries, "
+                      f"{'all pairs of cuts (streams up to 32 bytes) / 150 pairs' if thorough else '10 pairs of cuts + pairs around the boundaries'}")
+    if not bad:
+        ctx.require(n_child >= 8 and n_done >= 12 and n_wait >= 200, f"SOCKS5 domain lost its coverage (relayed={n_child}, rejected={n_done}, waiting steps={n_wait})")
+    for k in sorted(bad):
+        rule, what = SUB[k]
+        ctx.fail(rule, where, what, WHY[rule] + " - first case: " + bad[k])
+    fired = {SUB[k][0] for k in bad}
+    if "R21.1" not in fired:
+        ctx.ok("R21.1", f"{n_runs} interpreted runs: buffer = unparsed bytes after every segment, no segmentation raises, every segmentation has the outcome of the whole delivery, "
+               f"{n_wait} intermediate waits without effect, leftover relayed once")
+    if "R21.2" not in fired:
+        ctx.ok("R21.2", f"{n_cells} streams (version, methods, credentials, commands, address types, lengths 0/1/255, ports) answered as RFC 1928/1929 demand; destination exact")
+    if "R21.3" not in fired:
+        ctx.ok("R21.3", f"{n_done} rejected handshakes close and end the layer, {n_child} hand over to the next layer once (after address / open), Start and ConnectionClosed handled, no exception")
     for r in ("R21.1", "R21.2", "R21.3"):
         ctx.expect_instances(r, 1)
 
@@ -473,14 +167,16 @@ MUTANTS = [
     Mutant("passlen-read-before-test", M, "        if len(self.buf) < 3 + user_len:\n            return\n", "", "R21.1"),
     Mutant("segment-replaces-buffer", M, "            self.buf += event.data\n", "            self.buf = event.data\n", "R21.1"),
     Mutant("leftover-dropped", M, "            if self.buf:\n                yield from self.child_layer.handle_event(\n                    events.DataReceived(self.context.client, self.buf)\n                )\n                del self.buf\n", "            del self.buf\n", "R21.1"),
+    Mutant("leftover-relayed-twice", M, "                del self.buf\n", "                yield from self.child_layer.handle_event(\n                    events.DataReceived(self.context.client, self.buf)\n                )\n                del self.buf\n", "R21.1"),
     Mutant("auth-reply-before-length-test", M, "        pass_len = self.buf[2 + user_len]\n        if len(self.buf) < 3 + user_len + pass_len:\n            return\n",
            "        pass_len = self.buf[2 + user_len]\n        yield commands.SendData(self.context.client, b\"\\x01\\x00\")\n        if len(self.buf) < 3 + user_len + pass_len:\n            return\n", "R21.1"),
     Mutant("domain-length-byte-unchecked", M, "        if len(self.buf) < 5:\n            return\n\n        if self.buf[:3]", "        if len(self.buf) < 4:\n            return\n\n        if self.buf[:3]", "R21.1"),
-    # R21.1f: the next state must be run on what is already buffered (seed C21b = the first one)
+    # R21.1 c/d: the next state must be run on what is already buffered (seed C21b = the first one)
     Mutant("auth-does-not-redispatch", M, "        self.state = self.state_connect\n        yield from self.state()\n", "        self.state = self.state_connect\n", "R21.1"),
     Mutant("greeting-does-not-redispatch", M, "        self.buf = self.buf[2 + n_methods :]\n        yield from self.state()\n", "        self.buf = self.buf[2 + n_methods :]\n", "R21.1"),
     Mutant("auth-redispatches-before-consuming", M, "        self.buf = self.buf[3 + user_len + pass_len :]\n        self.state = self.state_connect\n        yield from self.state()\n",
            "        self.state = self.state_connect\n        yield from self.state()\n        self.buf = self.buf[3 + user_len + pass_len :]\n", "R21.1"),
+    Mutant("request-waits-for-one-more-byte", M, "        if len(self.buf) < message_len:\n", "        if len(self.buf) <= message_len:\n", "R21.1"),
     Mutant("ipv6-length-as-ipv4", M, "            message_len = 4 + 16 + 2\n", "            message_len = 4 + 4 + 2\n", "R21.2"),
     Mutant("domain-includes-length-byte", M, "            host_bytes = msg[5:-2]\n", "            host_bytes = msg[4:-2]\n", "R21.2"),
     Mutant("port-little-endian", M, "struct.unpack(\"!H\", msg[-2:])", "struct.unpack(\"<H\", msg[-2:])", "R21.2"),
@@ -490,11 +186,14 @@ MUTANTS = [
            "            yield commands.SendData(\n                self.context.client, b\"\\x05\\x01\\x00\\x01\\x00\\x00\\x00\\x00\\x00\\x00\"\n            )\n            if self.buf:", "R21.2"),
     Mutant("noauth-offered-with-proxyauth", M, "            method = SOCKS5_METHOD_USER_PASSWORD_AUTHENTICATION\n", "            method = SOCKS5_METHOD_NO_AUTHENTICATION_REQUIRED\n", "R21.2"),
     Mutant("wrong-version-accepted", M, "        if self.buf[0] != SOCKS5_VERSION:\n", "        if self.buf[0] > SOCKS5_VERSION:\n", "R21.2"),
+    Mutant("password-includes-length-byte", M, "        password = self.buf[(3 + user_len) : (3 + user_len + pass_len)].decode(", "        password = self.buf[(2 + user_len) : (3 + user_len + pass_len)].decode(", "R21.2"),
     Mutant("error-does-not-end-layer", M, "        yield commands.Log(message)\n        self._handle_event = self.done\n", "        yield commands.Log(message)\n", "R21.3"),
     Mutant("error-does-not-close", M, "        yield commands.CloseConnection(self.context.client)\n        yield commands.Log(message)\n", "        yield commands.Log(message)\n", "R21.3"),
     Mutant("connect-failure-keeps-client-open", M, "                self.context.client, b\"\\x05\\x04\\x00\\x01\\x00\\x00\\x00\\x00\\x00\\x00\"\n            )\n            yield commands.CloseConnection(self.context.client)\n",
            "                self.context.client, b\"\\x05\\x04\\x00\\x01\\x00\\x00\\x00\\x00\\x00\\x00\"\n            )\n", "R21.3"),
     Mutant("no-return-after-unknown-atyp", M, "                f\"Unknown address type: {atyp}\", SOCKS5_REP_ADDRESS_TYPE_NOT_SUPPORTED\n            )\n            return\n",
            "                f\"Unknown address type: {atyp}\", SOCKS5_REP_ADDRESS_TYPE_NOT_SUPPORTED\n            )\n            message_len = 10\n", "R21.3"),
-    Mutant("child-handler-set-in-state-connect", M, "        self.child_layer = layer.NextLayer(self.context)\n\n        # this already triggers", "        self.child_layer = layer.NextLayer(self.context)\n        self._handle_event = self.child_layer.handle_event\n\n        # this already triggers", "R21.3"),
+    Mutant("connect-failure-starts-next-layer", M, "            if err:\n                self._handle_event = self.done  # type: ignore\n                return err\n",
+           "            if err:\n                self._handle_event = self.done  # type: ignore\n                yield from self.child_layer.handle_event(events.Start())\n                return err\n", "R21.3"),
+    Mutant("connection-closed-ignored", M, "            yield commands.CloseConnection(event.connection)\n", "            pass\n", "R21.3"),
 ]
